@@ -1,2 +1,199 @@
--- stub: replaced when the area is built
-def main : IO Unit := pure ()
+import Nstd.Common.Basic
+import Nstd.Codec.Model
+/-
+  Line protocol of the Codec area (property C18).  Stateless: every op line is one call (or one
+  batch of calls, summarised by a count and an FNV-1a digest) of the modelled functions.
+
+    cp <start> <count>     toString/fromString/isValid/length for the code points start..start+count-1
+                           -> `cp <round trips ok> <digest>`
+    cp1 <cp>               -> `cp1 <toString bytes> <fromString> <isValid> <length(first byte)>`
+    len <byte>             -> `len <n>`
+    dec <bytes>            fromString + isValid on the exactly sized range -> `dec <value> <valid>`
+    decpre <bytes> <k>     all k-byte suffixes (k <= 2) appended to the prefix -> `decpre <count> <digest>`
+    u32s <cp,cp,..>        append(data, size, str) -> `u32s <flag> <bytes>`
+    hex <bytes>            fromHex -> `hex <bytes of the text>`
+    b64 <bytes>            fromBase64 -> `b64 <bytes>`
+    b64pre <bytes> <k>     all k-symbol suffixes (k <= 3) over the 68-symbol set -> `b64pre <count> <digest>`
+    fi32|fu32|fi64|fu64 <hex two's complement>   from*/to* round trip -> `<op> <text> <value back, hex>`
+    pi32|pu32|pi64|pu64 <bytes of the text>      to* of arbitrary text -> `<op> <value, hex>`
+  A modelled out-of-range access prints `OOB`.
+-/
+open Nstd.Common Nstd.Generated.Codec
+namespace Nstd.Codec
+
+def fnvInit : UInt64 := 0xcbf29ce484222325
+def fnvByte (h : UInt64) (b : Nat) : UInt64 := (h ^^^ (UInt64.ofNat (b % 256))) * 0x100000001b3
+def fnvBytes (h : UInt64) (bs : List Nat) : UInt64 := bs.foldl fnvByte h
+def fnvU32 (h : UInt64) (v : Nat) : UInt64 :=
+  fnvByte (fnvByte (fnvByte (fnvByte h v) (v / 256)) (v / 65536)) (v / 16777216)
+
+def hexN (digits : Nat) (v : Nat) : String :=
+  String.ofList ((List.range digits).reverse.map fun k => hexDigit (v / 16 ^ k % 16))
+
+def hexVal? (s : String) : Option Nat :=
+  s.toList.foldl (fun acc c => do
+    let a ← acc
+    let d ← hexVal c
+    pure (a * 16 + d)) (some 0)
+
+/-- the symbols of the exhaustive base64 scope: alphabet, '=', 0x80, 0xFF, '{' -/
+def b64Symbols : List Nat :=
+  ("ABCDEFGHIJKLMNOPQRSTUVWXYZabcdefghijklmnopqrstuvwxyz0123456789+/".toList.map Char.toNat) ++ [61, 0x80, 0xFF, 123]
+
+def showRes {α : Type} (r : Res α) (f : α → String) : String :=
+  match r with
+  | .ok a => f a
+  | .oob => "OOB"
+
+def b2s (b : Bool) : String := if b then "1" else "0"
+
+/-- observations of one code point: (toString bytes, fromString, isValid, length of first byte) -/
+def cpObs (cp : Nat) : Res (List Nat × Nat × Bool × Nat) :=
+  let s := toString cp
+  (fromString s s.length).bind fun v => (isValid s s.length).bind fun ok =>
+    .ok (s, v, ok, match s with | b :: _ => utf8Length b | [] => 255)
+
+def cpBatch (start count : Nat) : String := Id.run do
+  let mut h := fnvInit
+  let mut good := 0
+  let mut oob := false
+  for k in [0:count] do
+    let cp := start + k
+    match cpObs cp with
+    | .oob => oob := true
+    | .ok (s, v, ok, l) =>
+      h := fnvByte h s.length
+      h := fnvBytes h s
+      h := fnvU32 h v
+      h := fnvByte h (if ok then 1 else 0)
+      h := fnvByte h l
+      if v == cp && !s.isEmpty then good := good + 1
+  if oob then "OOB" else s!"cp {good} {hexN 16 h.toNat}"
+
+def decObs (bs : List Nat) : Res (Nat × Bool) :=
+  (fromString bs bs.length).bind fun v => (isValid bs bs.length).bind fun ok => .ok (v, ok)
+
+/-- all words of length `k` over `alpha`, in lexicographic order of positions -/
+def wordsOver (alpha : List Nat) : Nat → List (List Nat)
+  | 0 => [[]]
+  | k + 1 => alpha.flatMap fun a => (wordsOver alpha k).map fun w => a :: w
+
+def decPre (pre : List Nat) (k : Nat) : String := Id.run do
+  let mut h := fnvInit
+  let mut n := 0
+  let mut oob := false
+  for w in wordsOver (List.range 256) k do
+    match decObs (pre ++ w) with
+    | .oob => oob := true
+    | .ok (v, ok) =>
+      h := fnvU32 h v
+      h := fnvByte h (if ok then 1 else 0)
+      n := n + 1
+  if oob then "OOB" else s!"decpre {n} {hexN 16 h.toNat}"
+
+def b64Pre (pre : List Nat) (k : Nat) : String := Id.run do
+  let mut h := fnvInit
+  let mut n := 0
+  let mut oob := false
+  for w in wordsOver b64Symbols k do
+    match fromBase64 (pre ++ w) with
+    | .oob => oob := true
+    | .ok r =>
+      h := fnvByte h r.length
+      h := fnvBytes h r
+      n := n + 1
+  if oob then "OOB" else s!"b64pre {n} {hexN 16 h.toNat}"
+
+def asciiStr (bs : List Nat) : String := String.ofList (bs.map Char.ofNat)
+
+def toSigned (bits : Nat) (v : Nat) : Int := if v < 2 ^ (bits - 1) then (v : Int) else (v : Int) - (2 ^ bits : Nat)
+def ofSigned (bits : Nat) (v : Int) : Nat := (v % ((2 ^ bits : Nat) : Int)).toNat
+
+def parseCps (s : String) : Option (List Nat) :=
+  if s == "-" then some [] else (s.splitOn ",").mapM fun t => do
+    let v ← t.toNat?
+    if v < 4294967296 then some v else none
+
+def stepLine (st : Unit) (ws : List String) : Unit × String :=
+  (st, match ws with
+  | ["reset"] => "ok"
+  | ["cp", a, n] =>
+    match a.toNat?, n.toNat? with
+    | some a, some n => if a + n ≤ 4294967296 then cpBatch a n else "bad-op"
+    | _, _ => "bad-op"
+  | ["cp1", a] =>
+    match a.toNat? with
+    | some cp =>
+      if cp < 4294967296 then
+        showRes (cpObs cp) fun (s, v, ok, l) => s!"cp1 {toHex s} {v} {b2s ok} {if l == 255 then "-" else s!"{l}"}"
+      else "bad-op"
+    | none => "bad-op"
+  | ["len", b] =>
+    match b.toNat? with
+    | some b => if b < 256 then s!"len {utf8Length b}" else "bad-op"
+    | none => "bad-op"
+  | ["dec", d] =>
+    match Nstd.Common.fromHex d with
+    | some bs => showRes (decObs bs) fun (v, ok) => s!"dec {v} {b2s ok}"
+    | none => "bad-op"
+  | ["decpre", d, k] =>
+    match Nstd.Common.fromHex d, k.toNat? with
+    | some bs, some k => if k ≤ 2 then decPre bs k else "bad-op"
+    | _, _ => "bad-op"
+  | ["u32s", l] =>
+    match parseCps l with
+    | some cps => let r := appendAll cps; s!"u32s {b2s r.1} {toHex r.2}"
+    | none => "bad-op"
+  | ["hex", d] =>
+    match Nstd.Common.fromHex d with
+    | some bs => showRes (Nstd.Codec.fromHex bs) fun t => s!"hex {toHex t}"
+    | none => "bad-op"
+  | ["b64", d] =>
+    match Nstd.Common.fromHex d with
+    | some bs => showRes (fromBase64 bs) fun t => s!"b64 {toHex t}"
+    | none => "bad-op"
+  | ["b64pre", d, k] =>
+    match Nstd.Common.fromHex d, k.toNat? with
+    | some bs, some k => if k ≤ 3 then b64Pre bs k else "bad-op"
+    | _, _ => "bad-op"
+  | ["fi32", x] =>
+    match hexVal? x with
+    | some v => if x.length == 8 then
+        let t := fromInt (toSigned 32 v); s!"fi32 {asciiStr t} {hexN 8 (ofSigned 32 (toInt t))}" else "bad-op"
+    | none => "bad-op"
+  | ["fu32", x] =>
+    match hexVal? x with
+    | some v => if x.length == 8 then
+        let t := fromUInt v; s!"fu32 {asciiStr t} {hexN 8 (toUInt t)}" else "bad-op"
+    | none => "bad-op"
+  | ["fi64", x] =>
+    match hexVal? x with
+    | some v => if x.length == 16 then
+        let t := fromInt64 (toSigned 64 v); s!"fi64 {asciiStr t} {hexN 16 (ofSigned 64 (toInt64 t))}" else "bad-op"
+    | none => "bad-op"
+  | ["fu64", x] =>
+    match hexVal? x with
+    | some v => if x.length == 16 then
+        let t := fromUInt64 v; s!"fu64 {asciiStr t} {hexN 16 (toUInt64 t)}" else "bad-op"
+    | none => "bad-op"
+  | ["pi32", d] =>
+    match Nstd.Common.fromHex d with
+    | some bs => s!"pi32 {hexN 8 (ofSigned 32 (toInt bs))}"
+    | none => "bad-op"
+  | ["pu32", d] =>
+    match Nstd.Common.fromHex d with
+    | some bs => s!"pu32 {hexN 8 (toUInt bs)}"
+    | none => "bad-op"
+  | ["pi64", d] =>
+    match Nstd.Common.fromHex d with
+    | some bs => s!"pi64 {hexN 16 (ofSigned 64 (toInt64 bs))}"
+    | none => "bad-op"
+  | ["pu64", d] =>
+    match Nstd.Common.fromHex d with
+    | some bs => s!"pu64 {hexN 16 (toUInt64 bs)}"
+    | none => "bad-op"
+  | _ => "bad-op")
+
+end Nstd.Codec
+
+def main : IO Unit := Nstd.Common.ioLoop () Nstd.Codec.stepLine
